@@ -360,6 +360,17 @@ func genStream(r *vh.Rand, schema []sleaf, o streamOpts, ts *int64) []*Noti {
 				n.Deletes = append(n.Deletes, p)
 			}
 		}
+		// an update the cache rejects inside a multi-operation notification: the
+		// same leaf repeated with the same value (stale at an equal timestamp);
+		// the other operations of the notification, its deletes in particular,
+		// must still take effect
+		if len(n.Updates) > 0 && (len(n.Deletes) > 0 && r.Chance(1, 2) || r.Chance(1, 8)) {
+			dup := n.Updates[r.Intn(len(n.Updates))]
+			at := r.Intn(len(n.Updates) + 1)
+			us := append([]Upd{}, n.Updates[:at]...)
+			us = append(us, dup)
+			n.Updates = append(us, n.Updates[at:]...)
+		}
 		if len(n.Updates)+len(n.Deletes) == 0 && !r.Chance(1, 10) {
 			continue
 		}
